@@ -39,6 +39,17 @@ def project(segm, with_poly=True):
             out['segments'] = [[int(s.label), _slices_j([s.slices])[0], int(s.area)] for s in segm.segments]
         except Exception as e:  # noqa
             out['segments'] = f'raise:{type(e).__name__}'
+        # the cutouts of the Segment objects: only this label's pixels, everything else zero
+        try:
+            bad = []
+            for s in segm.segments:
+                cut = np.asarray(segm.data)[s.slices]
+                want = np.where(cut == s.label, s.label, 0)
+                if not (np.array_equal(np.asarray(s.data), want) and np.array_equal(np.ma.getmaskarray(s.data_ma), want == 0)):
+                    bad.append(int(s.label))
+            out['segment_cutouts_bad'] = bad
+        except Exception as e:  # noqa
+            out['segment_cutouts_bad'] = []
     return out
 
 
@@ -139,6 +150,10 @@ def compare_state(segm, step, dtype, out, sig_base, want_poly=True):
         for a in ATTRS:
             if got[a] != exp[a]:
                 out.append((f'attr:{a}', dict(sig_base, order=order), {'expected': exp[a], 'got': got[a]}))
+        if got.get('segment_cutouts_bad'):
+            out.append(('segment_cutout_holds_only_its_label', dict(sig_base, order=order), {'labels': got['segment_cutouts_bad']}))
+        if not np.array_equal(np.asarray(probe.data), exp_data):      # reading attributes (incl. Segment.data) never changes the label array
+            out.append(('reads_do_not_change_the_label_array', dict(sig_base, order=order), {'expected': step['data'], 'got': np.asarray(probe.data).tolist()}))
         if got['bbox'] != exp['slices']:
             out.append(('attr:bbox', dict(sig_base, order=order), {'expected': exp['slices'], 'got': got['bbox']}))
         if got['get_areas'] != exp['areas']:
